@@ -16,7 +16,9 @@ CLAIMED = {
         text="Machine-checked proof (Lean 4 kernel) that the codec model - an interpreter of the byte/shift tables "
              "regenerated on every run from encoding/binary's source, under the delegations regenerated from "
              "machine/prims.go - writes exactly the little-endian bytes, frames them, is inverted by Get for every "
-             "value and every buffer length, and refuses short buffers before writing; tied to the code by the "
+             "value and every buffer length, and refuses short buffers before writing; the layout is also stated as "
+             "arithmetic (the value read is the sum of byte_i * 256^i; byte i written is digit i in base 256) and across "
+             "widths (UInt32Get of what UInt64Put wrote is the value mod 2^32; a value below 2^32 zeroes bytes 4..7); tied to the code by the "
              "regenerated facts (decide) and by a differential run of the real functions against the compiled model "
              "and a table-free specification.",
         ref="DESIGN.md §6 C15",
@@ -45,12 +47,14 @@ CLAIMED = {
              "over a modelled OS file, blocks laid out at a*4096) produce, for every history of "
              "Read/ReadTo/Write/Size/Barrier with arbitrary addresses, buffers and buffer re-use, exactly the replies of "
              "an array of independent registers, leave the client heap in the same state, hence agree with each other; "
-             "spec-level theorems give last-write, frame, constant size, refusals and non-aliasing. Tied to the code by "
+             "spec-level theorems give last-write, frame, constant size, refusals and non-aliasing; the retry loop of "
+             "FileDisk.Write is modelled over a kernel that may cut any pwrite short, and for every schedule of answers a "
+             "returned Write has stored exactly its block and no Write touches a byte outside it. Tied to the code by "
              "the regenerated declarations of machine/disk and machine/async_disk (canonical text, evaluated constants, "
              "resolved aliases: rfl against committed expectations) and by running the six real variants against the "
              "compiled models and an executable specification, with shrinking of any disagreement.",
         ref="DESIGN.md §6 C09",
-        note="Trusted: the OS-file model (pread/pwrite/ftruncate), the hand-written models (tied by canonical text + "
+        note="Trusted: the OS-file model (pread/pwrite/ftruncate; a pwrite of count k stores the first k bytes at its offset), the hand-written models (tied by canonical text + "
              "sampling), offsets in unbounded Nat (equal to the code's uint64/int64 offsets for every disk NewFileDisk opens: openable_offsets_exact). ReadTo into non-block buffers is outside "
              "the quantifier (implementations differ there by design) and is compared with the models only.",
         tech="Lean 4 refinement proof (simulation, induction over histories) + regenerated facts + differential correspondence"),
